@@ -25,11 +25,14 @@ def demo(path):
 
 def main():
     src = sys.argv[1]
+    only = set(sys.argv[2:])
     head = sh('git -C /repo rev-parse --short HEAD').stdout.strip()
     for prop in sorted(os.listdir(src)):
         for n in sorted(os.listdir(os.path.join(src, prop))):
             d = os.path.join(src, prop, n)
-            if not os.path.exists(os.path.join(d, 'patch.diff')):
+            if not all(os.path.exists(os.path.join(d, f)) for f in ('patch.diff', 'demo.py', 'meta.json')):
+                continue
+            if only and '%s-%s' % (prop, n) not in only:
                 continue
             assert not sh('git -C /repo status --porcelain').stdout.strip(), 'repo not clean'
             r = sh('git -C /repo apply %s/patch.diff' % d)
@@ -43,6 +46,9 @@ def main():
             patch = sh('git -C /repo diff HEAD').stdout
             dm = demo(d + '/demo.py')
             pt = sh(PYTEST).stdout.strip()
+            if '49 passed' not in pt:      # test_normalized (hypothesis) is flaky upstream
+                sh('rm -rf /repo/.hypothesis')
+                pt = sh(PYTEST).stdout.strip()
             sh('git -C /repo reset -q --hard HEAD; git -C /repo clean -fdq -- t4_geom_convert MIP; rm -rf /repo/.hypothesis')
             dc = demo(d + '/demo.py')
             passed = re.search(r'(\d+) passed', pt)
